@@ -7,6 +7,7 @@ Predicates (failing-input search): the property evaluated directly on the
 implementation's results against an independent brute-force reading of the
 half-open interval set."""
 import math
+import os
 
 import numpy as np
 
@@ -459,6 +460,22 @@ def grl_stream(ctx, rng, model_exprs, checks, n, only=None):
                               f't={z2f(q[j])}: is_on={got[j]}, lies in a run={want[j]}', case=dict(case, t=q[j]),
                               impl=got, predicate='on <-> in one of the half-open runs')
             ctx.count('grl:is_on-compared')
+        # (c') the same list through a file: from_grl_files = load + the same two statements
+        if k % 4 == 0 and runs:
+            import tempfile
+            with tempfile.TemporaryDirectory(dir=os.path.join(common.VERIF, 'build')) as td:
+                fn = os.path.join(td, 'grl.npy')
+                np.save(fn, grl)
+                for arg in (fn, [fn]):
+                    try:
+                        ltf = I3Livetime.from_grl_files(arg)
+                        impl_f = ['Ok', [(f2z(float(a)), f2z(float(b))) for a, b in ltf.uptime_mjd_intervals_arr]]
+                    except Exception as ex:
+                        impl_f = ['Err', exc_name(ex)]
+                    if impl_f != impl_l:
+                        ctx.violation('I3Livetime.from_grl_files', 'differs-from-from_grl_data', f'{impl_f[:2]} vs {impl_l[:2]}',
+                                      case=case, impl=impl_f, predicate='from_grl_files(file of grl) = from_grl_data(grl)')
+                    ctx.count('grl:from_files')
         # (d) get_integrated_livetime
         il = Livetime.get_integrated_livetime(lt)
         model_exprs.append(f'match grl_livetime {cruns} with Ok ivs => integrated_livetime (inr ivs) | Err _ => -1 end')
